@@ -27,9 +27,9 @@ type Account struct {
 	Known  bool // account number resolved from chain
 }
 
-func (a *Account) Bech32() string    { return a.Addr.String() }
+func (a *Account) Bech32() string          { return a.Addr.String() }
 func (a *Account) ValAddr() sdk.ValAddress { return sdk.ValAddress(a.Addr) }
-func (a *Account) ValBech32() string { return sdk.ValAddress(a.Addr).String() }
+func (a *Account) ValBech32() string       { return sdk.ValAddress(a.Addr).String() }
 
 func keyMaterial(seed uint64, label string, ctr uint32) []byte {
 	h := sha256.New()
